@@ -84,13 +84,14 @@ class Registry:
         return [c for c in self.contracts.values() if c.self_cls == cls and c.path[-1] == meth]
 
     def resolve_function(self, name, module=None):
-        for q, c in self.contracts.items():
-            if c.self_cls is None and c.path[-1] == name:
-                return q
-        return None
+        cands = self.function_candidates(name, module)
+        return cands[0].qual if cands else None
 
-    def function_candidates(self, name):
-        return [c for c in self.contracts.values() if c.self_cls is None and c.path[-1] == name]
+    def function_candidates(self, name, module=None):
+        """Contracts of the module-level function `name`: those defined in the calling module shadow the others."""
+        cs = [c for c in self.contracts.values() if c.self_cls is None and c.path[-1] == name]
+        local = [c for c in cs if c.file == module]
+        return local or cs
 
 
 class Cx:
@@ -466,7 +467,7 @@ class Engine(ExprMixin, CallMixin, StmtMixin):
 
     def call_function(self, q, e, p):
         name = self.reg.contracts[q].path[-1]
-        cands = self.reg.function_candidates(name)
+        cands = self.reg.function_candidates(name, self.cur_module)
         first = self.ev(e.args[0], p) if e.args else None
         ok = []
         for c in cands:
